@@ -52,7 +52,7 @@ pub fn gen_jitter_ops(rng: &mut Prng, max_ops: u64, c16_bias: bool) -> Vec<Op> {
     let n = rng.range(1, max_ops);
     let mix: [u32; 8] = if c16_bias {
         // next_u32 pairs, next_u32 followed by each other output call, clone while a half is pending
-        [8, 3, 3, 0, 1, 2, 4, 2]
+        [8, 3, 3, 1, 1, 2, 4, 2]
     } else {
         match rng.below(4) {
             0 => [3, 3, 3, 2, 1, 1, 1, 1],
@@ -103,6 +103,12 @@ pub fn gen_jitter_spec(rng: &mut Prng, prop: &str, allowed: &[CF], c16_bias: boo
     spec.rounds = gen_rounds(rng);
     let big_rounds = spec.rounds.map(|r| r > 16).unwrap_or(true);
     spec.ops = gen_jitter_ops(rng, if big_rounds { 6 } else { 24 }, c16_bias);
+    if c16_bias && rng.chance(1, 8) {
+        // the documented usage: new_with_timer, test_timer, set_rounds, then output - the non-output
+        // calls must not leave a half "pending"
+        let at = if rng.chance(2, 3) { 0 } else { rng.below(spec.ops.len() as u64 + 1) as usize };
+        spec.ops.insert(at, Op::TestTimer);
+    }
     let n = (est_reads(&spec.ops, spec.rounds.unwrap_or(64) as u32) * 5 / 4 + 16).min(50_000);
     let faults = pick_faults(rng, allowed);
     let rate = match rng.below(4) {
